@@ -165,7 +165,12 @@ int main(int argc, char **argv)
     ompl::msg::setLogLevel(ompl::msg::LOG_NONE);
     vf::Harness H;
     H.property = "C06";
-    H.jobs = [](const vf::Args &a) { return spaceNames(a.thorough()); };
+    H.jobs = [](const vf::Args &a) {
+        auto n = spaceNames(a.thorough());
+        for (auto &x : nonMetricWrapperNames())
+            n.push_back(x);
+        return n;
+    };
     H.run = [](const std::string &job, const vf::Args &a, vf::Report &r) {
         r.maxFailuresPerKey = 1;
         runSpace(job, a, r);
